@@ -166,3 +166,54 @@ REG.add("finding_to_directed_reverse", T_conv, body,
         what="(expected to fail) to_directed() also creates the direction v->u opposite to the one interactions() lists")
 
 REG.conds["to_undirected_recip_n2_1"].tier = "thorough"
+
+
+# ---- CPython's hash iteration order of int sets is not modelled by the engine (insertion order there).  to_undirected(
+# reciprocal=True) builds sets of instants, so a bounded window of starts is enumerated by the solver and the conversion is
+# then executed NATIVELY (outside the tracer) on the real class, where the real set order applies.
+def T_native(a: int, c: int, q: int) -> bool:
+    pass
+
+
+def native_body(cfg, a, c, q):
+    W = cfg["W"]
+    assume((0 <= a) & (a < W) & (0 <= c) & (c < W))
+    ca = 0
+    while sbool(ca < a):
+        ca += 1
+    cc = 0
+    while sbool(cc < c):
+        cc += 1
+    if ca + cfg["lens"][0] >= 8 and cc + cfg["lens"][1] >= 8:
+        reach("beyond_small_ints")
+    return models.untraced(native_recip, cfg, ca, cc)
+
+
+def native_recip(cfg, a, c):
+    la, lc = cfg["lens"]
+    g = dn.DynDiGraph()
+    g.add_interaction(1, 2, a, a + la + 1)
+    g.add_interaction(2, 1, c, c + lc + 1)
+    for recip in (True, False):
+        h = g.to_undirected(reciprocal=recip)
+        for k in range(-1, cfg["W"] + max(la, lc) + 3):
+            p12, p21 = a <= k <= a + la, c <= k <= c + lc
+            exp = (p12 and p21) if recip else (p12 or p21)
+            if bool(h.has_interaction(1, 2, k)) != exp or bool(h.has_interaction(2, 1, k)) != exp:
+                return False
+        for (u, v, d) in h.interactions():
+            prev = None
+            for (x, y) in d['t']:
+                if x > y or (prev is not None and not prev + 1 < x):
+                    return False
+                prev = y
+    return True
+
+
+for lens in ((3, 3), (5, 2), (1, 6)):
+    REG.add("native_recip_%d%d" % lens, T_native, native_body, cfg=dict(lens=lens, W=12), tier="quick" if lens == (3, 3) else "thorough",
+            timeout=600, tags=["beyond_small_ints"], twins=1,
+            bounds="DynDiGraph with 1->2 on [a, a+%d] and 2->1 on [c, c+%d], 0 <= a, c < 12 (enumerated by the solver), conversion and "
+                   "checks executed natively on the real class" % lens,
+            what="to_undirected(reciprocal=True/False): presence is the intersection/union at every instant and the timeline is "
+                 "canonical, under CPython's real set iteration order")
